@@ -127,8 +127,11 @@ def _case(draw):
     if draw(st.booleans()) or quals == ["onmatch"]:
         nrec = len(table["records"])
         decider = ["f", "in", [], [["h", "id"], ["t", "|".join(f"r{i}" for i in draw(st.lists(st.integers(0, nrec), min_size=1, max_size=4)))]]]
+    # the tracking key may be all digits ('@d.7 = ...' / '$.variables.d.7'): d is a dict, so the digits are a key
+    dkey = draw(st.sampled_from(["k", "k", "7", "2024"]))
+    chunks = [[c[0], c[1], c[2], dkey] if (c[0] == "ref" and c[1] == "vartrack") else c for c in chunks]
     return {"table": table, "scan": scan, "x": xe, "t": te, "chunks": chunks, "quals": quals, "decider": decider,
-            "dk": dk, "numv": numv, "pop": pop_where}
+            "dk": dk, "numv": numv, "pop": pop_where, "dkey": dkey}
 
 
 def strategy(tier):
@@ -158,7 +161,7 @@ def run_case(case, sb):
     comps = [["=", "x", [], None, case["x"]], ["=", "t", [], None, case["t"]],
              ["f", "push", [], [["t", "stk"], ["h", "id"]]]]
     if case.get("dk") is not None:
-        comps.append(["=", "d", [], "k", case["dk"]])
+        comps.append(["=", "d", [], case.get("dkey", "k"), case["dk"]])
         comps.append(["f", "push", [], [["t", "nums"], case["numv"]]])
         if case.get("pop") == "before":
             comps.append(["=", "p", [], None, ["f", "pop", [], [["t", "nums"]]]])
@@ -181,7 +184,7 @@ def run_case(case, sb):
             close = True
         if i + 2 < len(chunks) and chunks[i + 1][0] == "text" and len(chunks[i + 1][1]) == 1 and chunks[i + 2][0] == "ref":
             close = True
-    labels = ["quals:" + "+".join(case["quals"] or ["none"])]
+    labels = ["quals:" + "+".join(case["quals"] or ["none"])] + (["tracking-key:digits"] if str(case.get("dkey", "k")).isdigit() else [])
     if close:
         labels.append("adjacent-or-one-char")
     for c in chunks:
